@@ -15,6 +15,8 @@ symbolic; the outcome of a path is either a normal return or the exception class
  L6  BoundaryFace with non-array coefficients -> TypeError
  L7  solvePDE: tuple / matrix / vector terms accepted; objects that are no equation term -> TypeError
  L8  every public dispatcher has a branch for each of the 9 grid classes
+ L9  "valid requests never fail": both constructor forms, the CellVariable constructor and every public builder are
+     interpreted on meshes with one and with two cells per axis (concrete sizes) and must not raise
 """
 from __future__ import annotations
 import itertools
@@ -29,7 +31,7 @@ from .c10 import LABELS, ALL_LABELS
 PROP = 'C16'
 RULES = {'L1': 'CellProp labels', 'L2': 'FaceVariable component labels (get and set)', 'L3': 'radial periodic -> ValueError',
          'L4': 'initial value shapes', 'L5': 'constructor arity', 'L6': 'BoundaryFace coefficient types', 'L7': 'solvePDE term kinds',
-         'L8': 'dispatcher coverage'}
+         'L8': 'dispatcher coverage', 'L9': 'documented forms and every public builder accepted on meshes with 1 and 2 cells per axis'}
 ASSUMPTIONS = ['documented exception types: AttributeError (labels), ValueError (radial periodic, shapes), TypeError (arity, coefficient and term types) - from the docstrings, docs/user_guide and the property statement',
                '"accepted for every N >= 1" is decided for symbolic N (all N >= 14) and the concrete sizes used by L4']
 
@@ -61,6 +63,10 @@ def jobs(tier):
             if chunk:
                 out.append(('periodic', c, tier, tuple(chunk)))
     out.append(('misc', 'Grid2D', tier))
+    for c in MESH_CLASSES:
+        d = DIM[c]
+        for n in (1, 2):
+            out.append(('small', c, tier, (n,) * d))
     return out
 
 
@@ -184,6 +190,39 @@ def job(args):
             except AbstractRaise as e:
                 ob('L3', f"boundary.{ri}/radial-periodic" if radial else f"boundary.{ri}/admissible-flags", radial and e.exc == 'ValueError',
                    f"periodic flags {sorted(per)}: raises {e.exc}", rfi.loc())
+        return dict(obs=obs, units=sorted(units), samples=samples)
+    if kind == 'small':
+        sizes = args[3]
+        ci = sm.cls(cls)
+        for uniform in (False, True):
+            form = '(N, L)' if uniform else 'face-array'
+            try:
+                w = World(sm, cls, sizes=sizes, uniform=uniform)
+            except AbstractRaise as e:
+                ob('L9', f"mesh.{cls}.__init__/N={sizes[0]}", False, f"{form} form with N={sizes} raises {e.exc}: {e.msg}", ci.loc())
+                continue
+            ob('L9', f"mesh.{cls}.__init__/N={sizes[0]}", True, f"{form} form with N={sizes} constructs", ci.loc())
+            if uniform:
+                continue
+            bc = w.boundary_conditions()
+            phi = w.cell_variable('phi', bc)
+            u = w.face_variable('u')
+            calls = [('cell', None, 'CellVariable(mesh, scalar)'), ('diffusion', 'diffusionTerm', (u,)), ('advection', 'convectionTerm', (u,)),
+                     ('advection', 'convectionUpwindTerm', (u,)), ('advection', 'convectionTVDupwindRHSTerm', (u, phi, OpaqueFn('FL'))),
+                     ('calculus', 'divergenceTerm', (u,)), ('calculus', 'gradientTerm', (phi,)), ('averaging', 'linearMean', (phi,)),
+                     ('averaging', 'upwindMean', (phi, u)), ('source', 'linearSourceTerm', (phi,)), ('source', 'constantSourceTerm', (phi,)),
+                     ('source', 'transientTerm', (phi, Rat.atom(('dt',)))), ('boundary', 'boundaryConditionsTerm', (bc,))]
+            for module, fn, a in calls:
+                try:
+                    if fn is None:
+                        w.interp.instantiate('CellVariable', [w.mesh, Rat.atom(('v0',))])
+                        name = 'cell.CellVariable.__init__'
+                    else:
+                        w.call(module, fn, *a)
+                        name = f"{module}.{fn}"
+                    ob('L9', f"{name}/small-grid", True, f"accepted on a mesh with N={sizes}", ci.loc())
+                except AbstractRaise as e:
+                    ob('L9', f"{name if fn else 'cell.CellVariable.__init__'}/small-grid", False, f"raises {e.exc}: {e.msg} on a mesh with N={sizes}", ci.loc())
         return dict(obs=obs, units=sorted(units), samples=samples)
     if kind == 'misc':
         w = World(sm, cls)
